@@ -109,6 +109,20 @@ func (w *World) Project() map[string]interface{} {
 		rom["condFresh"] = cfresh
 		treason, _, _ := condReason(ro.Status.Conditions, v1beta1.RolloutConditionTerminating)
 		rom["treason"] = treason
+		rom["thrKind"], rom["thrVal"] = "none", 0
+		var thr *intstr.IntOrString
+		if ro.Spec.Strategy.Canary != nil {
+			thr = ro.Spec.Strategy.Canary.FailureThreshold
+		} else if ro.Spec.Strategy.BlueGreen != nil {
+			thr = ro.Spec.Strategy.BlueGreen.FailureThreshold
+		}
+		if thr != nil {
+			if thr.Type == intstr.Int {
+				rom["thrKind"], rom["thrVal"] = "int", int(thr.IntVal)
+			} else {
+				rom["thrKind"], rom["thrVal"] = "pct", pctOf(thr.StrVal)
+			}
+		}
 		_, succ, _ := condReason(ro.Status.Conditions, v1beta1.RolloutConditionSucceeded)
 		rom["succeeded"] = succ
 		sub := ro.Status.GetSubStatus()
@@ -138,9 +152,10 @@ func (w *World) Project() map[string]interface{} {
 		for _, f := range []string{"phase", "reason", "treason", "succeeded", "state", "fstep", "rid"} {
 			rom[f] = ""
 		}
-		for _, f := range []string{"step", "next", "canaryRev", "stableRev", "podHash"} {
+		for _, f := range []string{"step", "next", "canaryRev", "stableRev", "podHash", "thrVal"} {
 			rom[f] = 0
 		}
+		rom["thrKind"] = "none"
 	}
 	out["user"] = user
 	out["ro"] = rom
@@ -338,18 +353,20 @@ func ingressShare(a map[string]string) (int, string) {
 
 func (w *World) projectMem() map[string]interface{} {
 	g := grace.DumpForVerif()
-	acts := []string{}
-	freshAny := false
+	gf, gold := []string{}, []string{}
 	for _, m := range g {
 		for a, t := range m {
-			acts = append(acts, a)
 			if fresh(t) {
-				freshAny = true
+				gf = append(gf, a)
+			} else {
+				gold = append(gold, a)
 			}
 		}
 	}
-	sort.Strings(acts)
-	return map[string]interface{}{"grace": acts, "graceFresh": freshAny}
+	sort.Strings(gf)
+	sort.Strings(gold)
+	// gf: grace expectations still inside their grace period, gold: expired ones not yet observed
+	return map[string]interface{}{"gf": gf, "gold": gold}
 }
 
 // userOwned is the configuration the user owns and a finished rollout must hand back (C05).
